@@ -64,6 +64,9 @@ def execute(op):
         if kind == "add":
             p = _tp(D, op["p"])
             return str(p + D.Duration(**op["d"]))
+        if kind == "add_trunc":
+            t = D.TimePoint(truncated=True, day_of_month=op["dom"])
+            return str(_tp(D, op["p"]) + t)
         if kind == "add_months":
             return str(_tp(D, op["p"]).add_months(op["n"]))
         if kind == "sub":
